@@ -19,6 +19,7 @@ type summary struct {
 	resKind string  // "error" | "bool" | ""
 	nres    int
 	busy    bool
+	specialised bool // computed for concrete arguments: no instantiation needed
 }
 
 func isErrorType(t types.Type) bool {
@@ -70,6 +71,124 @@ func (a *Analyzer) Summary(fn *ssa.Function) *summary {
 		s.params = append(s.params, t)
 	}
 	s.self = mkCall(shortName(fn), s.params)
+	a.fillSummary(s, env, Facts{}, nil)
+	s.busy = false
+	return s
+}
+
+// SummaryUnder: the summary of fn specialised to the actual arguments and to what the caller knows about them
+// (context-sensitive: a validator that branches on a flag parameter is summarised for the flag's known value).
+func (a *Analyzer) SummaryUnder(fn *ssa.Function, args []*Term, ctxFacts Facts, assume []*Atom) *summary {
+	if a.ctxDepth >= 2 {
+		return a.Summary(fn)
+	}
+	// only worth it when an argument is constrained by the context: a constant / assumed flag, or a fact about it
+	init := Facts{}
+	var argKeys []string
+	for _, t := range args {
+		if t.Op == "this" {
+			continue
+		}
+		argKeys = append(argKeys, t.Key())
+	}
+	selfKey := mkCall(shortName(fn), args).Key()
+	w := a.writes[fn]
+	for k, f := range ctxFacts {
+		if f.Pred == "done" || f.Pred == "forall" || f.Pred == "unique" {
+			continue
+		}
+		// the context is consulted after the call ran: facts about state the callee writes, or about its own
+		// result, describe the post-state and must not be fed back as its pre-state
+		if strings.Contains(k, selfKey) {
+			continue
+		}
+		post := false
+		for l := range a.atomReads(f) {
+			if w[l] {
+				post = true
+			}
+		}
+		if post {
+			continue
+		}
+		for _, ak := range argKeys {
+			if len(ak) > 6 && strings.Contains(k, ak) && len(k) < len(ak)+40 {
+				init[k] = f
+				break
+			}
+		}
+	}
+	for _, at := range assume {
+		if !at.Mentions(func(t *Term) bool { return t.Op == "var" }) {
+			for _, ak := range argKeys {
+				if strings.Contains(at.Key(), ak) {
+					init.Add(at)
+				}
+			}
+		}
+	}
+	hasConst := false
+	for _, t := range args {
+		if t.Op == "const" && (t.Name == "true" || t.Name == "false") {
+			hasConst = true
+		}
+	}
+	if len(init) == 0 && !hasConst {
+		return a.Summary(fn)
+	}
+	var kb strings.Builder
+	kb.WriteString(funcID(fn))
+	for _, t := range args {
+		kb.WriteString("|" + t.Key())
+	}
+	kb.WriteString("#" + strings.Join(init.SortedKeys(), ";"))
+	key := kb.String()
+	if s, ok := a.ctxSummaries[key]; ok {
+		if s.busy {
+			return a.Summary(fn)
+		}
+		return s
+	}
+	if a.ctxSummaries == nil {
+		a.ctxSummaries = map[string]*summary{}
+	}
+	s := &summary{fn: fn, busy: true, resIdx: -1, specialised: true}
+	a.ctxSummaries[key] = s
+	env := map[ssa.Value]*Term{}
+	for i, p := range fn.Params {
+		var t *Term
+		if sg := a.singletonOf(p.Type()); sg != "" {
+			t = This(sg)
+		} else if i < len(args) {
+			t = args[i]
+		} else {
+			t = T("param", itoa(i))
+		}
+		env[p] = t
+		s.params = append(s.params, t)
+	}
+	for i, fv := range fn.FreeVars {
+		var t *Term
+		if sg := a.singletonOf(fv.Type()); sg != "" {
+			t = This(sg)
+		} else if len(fn.Params)+i < len(args) {
+			t = args[len(fn.Params)+i]
+		} else {
+			t = T("param", "f"+itoa(i))
+		}
+		env[fv] = t
+		s.params = append(s.params, t)
+	}
+	s.self = mkCall(shortName(fn), s.params)
+	a.ctxDepth++
+	a.fillSummary(s, env, init, assume)
+	a.ctxDepth--
+	s.busy = false
+	return s
+}
+
+func (a *Analyzer) fillSummary(s *summary, env map[ssa.Value]*Term, init Facts, assume []*Atom) {
+	fn := s.fn
 	res := fn.Signature.Results()
 	s.nres = res.Len()
 	for i := res.Len() - 1; i >= 0; i-- {
@@ -85,7 +204,14 @@ func (a *Analyzer) Summary(fn *ssa.Function) *summary {
 		s.resIdx, s.resKind = 0, "bool"
 	}
 	c := a.NewFCtx(fn, env, 0)
-	fl := a.NewFlow(c, Facts{})
+	fl := a.NewFlow(c, init.Clone(), assume...)
+	if len(assume) > 0 || len(init) > 0 {
+		if dead := fl.DeadEdges(); len(dead) > 0 {
+			c = a.NewFCtx(fn, env, 0)
+			c.DeadEdge = dead
+			fl = a.NewFlow(c, init.Clone(), assume...)
+		}
+	}
 	var succ, fail, post Facts
 	for _, b := range fn.Blocks {
 		ret, ok := b.Instrs[len(b.Instrs)-1].(*ssa.Return)
@@ -93,6 +219,10 @@ func (a *Analyzer) Summary(fn *ssa.Function) *summary {
 			continue
 		}
 		facts := fl.At(ret)
+		// facts that were only inherited from the caller's context are not part of the summary
+		for k := range init {
+			delete(facts, k)
+		}
 		if post == nil {
 			post = facts.Clone()
 		} else {
@@ -162,7 +292,6 @@ func (a *Analyzer) Summary(fn *ssa.Function) *summary {
 		}
 	}
 	strip := func(f Facts) Facts {
-		// facts about callee-local unknowns are useless to callers; keep everything else
 		r := Facts{}
 		for k, v := range f {
 			if v.Pred == "done" {
@@ -173,12 +302,17 @@ func (a *Analyzer) Summary(fn *ssa.Function) *summary {
 		return r
 	}
 	s.succ, s.fail, s.post = strip(succ), strip(fail), strip(post)
-	s.busy = false
-	return s
 }
 
 // instantiate the summary facts for concrete argument terms.
 func (s *summary) inst(f Facts, args []*Term) []*Atom {
+	if s.specialised {
+		var out []*Atom
+		for _, a := range f {
+			out = append(out, a)
+		}
+		return out
+	}
 	m := map[string]*Term{}
 	for i, p := range s.params {
 		if p.Op == "param" && i < len(args) {
@@ -251,12 +385,26 @@ func (a *Analyzer) Close(f Facts, depth int) Facts {
 	return res
 }
 
-func (a *Analyzer) expand(at *Atom) []*Atom {
+type sumCtx struct {
+	facts  Facts
+	assume []*Atom
+}
+
+func (a *Analyzer) summaryFor(fn *ssa.Function, args []*Term, ctx *sumCtx) *summary {
+	if ctx != nil {
+		return a.SummaryUnder(fn, args, ctx.facts, ctx.assume)
+	}
+	return a.Summary(fn)
+}
+
+func (a *Analyzer) expand(at *Atom) []*Atom { return a.expandCtx(at, nil) }
+
+func (a *Analyzer) expandCtx(at *Atom, ctx *sumCtx) []*Atom {
 	switch at.Pred {
 	case "forall":
 		inner := termAtom(at.Args[1], at.Site)
 		var out []*Atom
-		for _, d := range a.expand(inner) {
+		for _, d := range a.expandCtx(inner, nil) {
 			out = append(out, &Atom{Pred: "forall", Args: []*Term{at.Args[0], atomTerm(d)}, Site: at.Site})
 		}
 		return out
@@ -280,7 +428,7 @@ func (a *Analyzer) expand(at *Atom) []*Atom {
 		if fn == nil {
 			return nil
 		}
-		s := a.Summary(fn)
+		s := a.summaryFor(fn, call.Args, ctx)
 		if s == nil || s.resKind != "error" {
 			return nil
 		}
@@ -303,7 +451,7 @@ func (a *Analyzer) expand(at *Atom) []*Atom {
 		if fn == nil {
 			return nil
 		}
-		s := a.Summary(fn)
+		s := a.summaryFor(fn, call.Args, ctx)
 		if s == nil || s.resKind != "bool" {
 			return nil
 		}
